@@ -3,13 +3,14 @@ Require Import RP.Model.Base RP.Model.Packet RP.Model.Events RP.Model.Protocol R
 
 (* a tick issues exactly one get; a packet is delivered unmodified, exactly once and in key order, to every
    handler when addressed to the own address or broadcast and otherwise to every capture-all handler and no
-   other; what the invoked handlers transmit goes to the link in order; 'nothing received' is a success
-   with no handler call; any other link error is returned with no handler call *)
+   other (dispatch_log: each selected handler's entry is followed by the nested deliveries of the packets that
+   handler itself sent to the own address); what the invoked handlers transmit goes to the link in order
+   (dispatch_sent); 'nothing received' is a success with no handler call; any other link error is returned
+   with no handler call *)
 Theorem C15_tick : forall own t i,
   match iget i with
   | (GPacket p, i') =>
-      tick own t i = (Val tt, map (fun kh => (fst kh, h_label (snd kh), p)) (invoked t (owned_addr own p)),
-                      isend_all i' (concat (map (fun kh => h_sends (snd kh)) (invoked t (owned_addr own p)))))
+      tick own t i = (Val tt, dispatch_log own t p (owned_addr own p), isend_all i' (dispatch_sent own t (owned_addr own p)))
   | (GNone, i') => tick own t i = (Val tt, [], i')
   | (GErr c, i') => tick own t i = (Fail (PInterface c), [], i')
   end.
@@ -17,6 +18,13 @@ Proof.
   intros own t i. unfold tick. destruct (iget i) as [[p| |c] i']; try reflexivity.
   rewrite handle_packet_spec. reflexivity.
 Qed.
+
+(* when no handler sends to the own address: exactly one log entry per selected handler, and everything the
+   selected handlers send is transmitted *)
+Theorem C15_quiet : forall own t p owned, quiet own t = true ->
+  dispatch_log own t p owned = map (fun kh => (fst kh, h_label (snd kh), p)) (invoked t owned) /\
+  dispatch_sent own t owned = concat (map (fun kh => h_sends (snd kh)) (invoked t owned)).
+Proof. exact dispatch_quiet. Qed.
 
 Theorem C15_selection : forall t, invoked t true = t /\ (forall kh, In kh (invoked t false) <-> In kh t /\ h_cap (snd kh) = true).
 Proof. intros t. split; [apply invoked_owned|]. intros kh. unfold invoked. rewrite filter_In. cbn. tauto. Qed.
@@ -30,5 +38,7 @@ Example C15_nonvacuous :
   let p := mkP false 5 [7; 7] in
   tick 4 t (mkI [GPacket p] [] []) = (Val tt, [(1, 11, p)], mkI [] [] [mkP false 9 [1]]) /\
   tick 5 t (mkI [GPacket p] [] []) = (Val tt, [(0, 10, p); (1, 11, p); (3, 13, p)], mkI [] [] [mkP false 9 [1]]) /\
-  tick 5 t (mkI [GErr 30] [] []) = (Fail (PInterface 30), [], mkI [] [] []).
+  tick 5 t (mkI [GErr 30] [] []) = (Fail (PInterface 30), [], mkI [] [] []) /\
+  (* handler 1 sends a packet to the own address 9 from inside the dispatch: every handler sees it once, nested, and it is not transmitted *)
+  tick 9 t (mkI [GPacket p] [] []) = (Val tt, [(1, 11, p); (0, 10, mkP false 9 [1]); (1, 11, mkP false 9 [1]); (3, 13, mkP false 9 [1])], mkI [] [] []).
 Proof. repeat split; reflexivity. Qed.
